@@ -60,6 +60,42 @@ pub fn hrp_of(family: &str, net: &str) -> &'static str {
     }
 }
 
+pub const FAMILIES: [&str; 5] = ["ua", "ufvk", "uivk", "sapling", "tex"];
+
+pub fn is_known_hrp(h: &str) -> bool {
+    FAMILIES.iter().any(|f| NETS.iter().any(|n| hrp_of(f, n) == h))
+}
+
+/// A human-readable part that is NOT one of Zcash's: foreign ones and near misses of the real ones
+/// (one character more, one character less).
+pub fn foreign_hrp(rng: &mut ChaCha8Rng) -> String {
+    const FIXED: [&str; 8] = ["bc", "tb", "zsx", "uu", "zview", "zxviews", "zxviewtestsapling", "uinvalid"];
+    loop {
+        let h: String = match rng.gen_range(0..3) {
+            0 => FIXED[rng.gen_range(0..FIXED.len())].to_string(),
+            1 => format!("{}{}", hrp_of(FAMILIES[rng.gen_range(0..5)], NETS[rng.gen_range(0..3)]),
+                         ["x", "t", "1", "test", "main", "q"][rng.gen_range(0..6)]),
+            _ => {
+                let k = hrp_of(FAMILIES[rng.gen_range(0..5)], NETS[rng.gen_range(0..3)]);
+                k[..k.len() - 1].to_string()
+            }
+        };
+        if !h.is_empty() && !is_known_hrp(&h) {
+            return h;
+        }
+    }
+}
+
+/// A known HRP followed by further characters, not itself a known HRP.
+pub fn longer_hrp(base: &str, rng: &mut ChaCha8Rng) -> String {
+    loop {
+        let h = format!("{}{}", base, ["x", "t", "1", "test", "main", "q", "regtest", "view"][rng.gen_range(0..8)]);
+        if !is_known_hrp(&h) {
+            return h;
+        }
+    }
+}
+
 /// Container kind of the specification ("addr" | "fvk" | "ivk") -> HRP family.
 pub fn family_of_kind(kind: &str) -> &'static str {
     match kind {
@@ -325,8 +361,10 @@ pub struct RawItem {
 }
 
 pub fn padding_for(hrp: &str) -> [u8; PADDING_LEN] {
+    // (an HRP longer than 16 bytes has no padding; only foreign HRPs are that long, cut them)
     let mut p = [0u8; PADDING_LEN];
-    p[..hrp.len()].copy_from_slice(hrp.as_bytes());
+    let n = hrp.len().min(PADDING_LEN);
+    p[..n].copy_from_slice(&hrp.as_bytes()[..n]);
     p
 }
 
@@ -553,18 +591,23 @@ pub fn rand_ws(rng: &mut ChaCha8Rng) -> String {
     (0..n).map(|_| WS_CHARS[rng.gen_range(0..WS_CHARS.len())]).collect()
 }
 
-/// Panics of the code under test are data (silent); a panic of the harness itself is printed.
+thread_local! {
+    static IN_CUT: std::cell::Cell<bool> = const { std::cell::Cell::new(false) };
+}
+
+/// `h_core::util::guarded` plus a marker, so that the panic hook can tell a panic of the code under
+/// test (data, silent) from a panic of the harness itself (printed; the process then fails).
+pub fn cut<T>(f: impl FnOnce() -> T) -> Result<T, String> {
+    IN_CUT.with(|c| c.set(true));
+    let r = h_core::util::guarded(f);
+    IN_CUT.with(|c| c.set(false));
+    r
+}
+
 pub fn harness_hook() {
     std::panic::set_hook(Box::new(|info| {
-        let msg = if let Some(s) = info.payload().downcast_ref::<&str>() {
-            (*s).to_string()
-        } else if let Some(s) = info.payload().downcast_ref::<String>() {
-            s.clone()
-        } else {
-            String::new()
-        };
-        if msg.contains("harness:") {
-            eprintln!("{info}");
+        if !IN_CUT.with(|c| c.get()) {
+            eprintln!("harness panic: {info}");
         }
     }));
 }
